@@ -481,13 +481,61 @@ pub fn run(run: &mut Run) {
     }
     run.bound("long_dynamic_lists", json!(if quick { "6..=40, 63..=65, 127..=129, 255..=257 members; weights all 1 / (1,0,2,3) repeating / only the last non-zero" } else { "6..=130, 255..=257, 511..=513, 1000 members; weights all 1 / (1,0,2,3) repeating / only the last non-zero" }));
     run.bound("dyn_weight_units", json!(["4294967311", "10000000019", "(2^60 / total) | 1"]));
+    // one member carries all the weight: it is used on *every* stream, the extreme words included (a
+    // probability computed as w * (1/w) in floating point is not exactly 1 for w = 49, 98, 103, ...)
+    {
+        let mut ws: Vec<u32> = (1..=1100).collect();
+        ws.extend([4093, 65_535, 65_536, 65_537, 1_000_003, (1 << 24) - 1, (1 << 24) + 1, (1 << 31) - 1, 1 << 31, (1u32 << 31) + 1, 3_000_000_019, u32::MAX - 1, u32::MAX]);
+        let shapes: Vec<(Shape, Vec<u32>, usize)> = ws
+            .iter()
+            .flat_map(|w| {
+                let mut v = vec![(Shape::Pair, vec![*w, 0], 0usize), (Shape::Pair, vec![0, *w], 1), (Shape::Dyn, vec![0, *w], 1)];
+                if *w >= 2 {
+                    let a = *w / 3 + 1;
+                    v.push((Shape::L3, vec![a, *w - a, 0], usize::MAX));
+                    v.push((Shape::R3, vec![0, a, *w - a], usize::MAX));
+                }
+                v
+            })
+            .collect();
+        let res = mcx::par_map(shapes.len(), |i| {
+            let (s, w, only) = (&shapes[i].0, &shapes[i].1, shapes[i].2);
+            let pop = mk_pop(&(0..w.len() as i64).collect::<Vec<_>>());
+            let mut bad: Option<String> = None;
+            let st = explore(
+                |env| {
+                    env.horizon = 4;
+                    build_and_select(*s, w, &pop, env, Alphabet::Ext(2))
+                },
+                |t, _, r| {
+                    let fine = match &r {
+                        Ok(SelObs::Idx(i)) => w[*i] > 0 && (only == usize::MAX || *i == only),
+                        _ => false,
+                    };
+                    if !fine && bad.is_none() {
+                        bad = Some(format!("word choices {:?} gave {r:?}", t.iter().map(|c| c.pick).collect::<Vec<_>>()));
+                    }
+                },
+                100_000,
+            );
+            (st.leaves, bad)
+        });
+        for (i, (leaves, bad)) in res.into_iter().enumerate() {
+            run.evaluations += leaves;
+            run.transitions += leaves;
+            if let Some(w) = bad {
+                run.violation(format!("weighted/zero-weight-member-used/{:?}", shapes[i].0), format!("{:?} weights {:?}: {w}; only members of non-zero weight may be used, on every stream", shapes[i].0, shapes[i].1), json!({"check":"C13","scenario":"certain","shape":format!("{:?}", shapes[i].0),"weights":shapes[i].1}));
+            }
+        }
+        run.bound("certain_weights", json!("one member (or one sub-pair) carries the whole weight w, the partner 0: w = 1..=1100 and 13 larger values up to u32::MAX; every stream over the extended grid (extreme words included)"));
+    }
     let ov = overflow_checks(run);
     run.evaluations += ov;
     run.transitions += ov;
     run.states = cases.len() as u64 + ov;
     run.traces_validated = run.evaluations;
     run.distinct_nontrivial = nontrivial;
-    run.rule = "every nesting shape of WeightedPair over 2..4 marker leaves (left chains via with_item_and_weight incl. the Result-chained form, right chains, balanced and mixed trees) and DynWeighted lists of 1..4(5) and long ones of up to 257 (1000) members (also with a selection made on the value after every building step) x every weight vector over 0..3 (thorough 0..5), and the same ratios scaled to totals just below 2^32, DynWeighted also with every weight multiplied by odd units above 2^32 (weights no u32 holds); all grid word sequences explored; the member law must equal w_i/sum exactly, zero-weight members unreachable, all-zero => zero-weight error, two selections from one combination value are independent (product law); u32-boundary weight vectors must build iff the total fits. non-trivial = scenarios with more than one reachable member".into();
+    run.rule = "every nesting shape of WeightedPair over 2..4 marker leaves (left chains via with_item_and_weight incl. the Result-chained form, right chains, balanced and mixed trees) and DynWeighted lists of 1..4(5) and long ones of up to 257 (1000) members (also with a selection made on the value after every building step) x every weight vector over 0..3 (thorough 0..5), and the same ratios scaled to totals just below 2^32, DynWeighted also with every weight multiplied by odd units above 2^32 (weights no u32 holds); all grid word sequences explored; the member law must equal w_i/sum exactly, zero-weight members unreachable (also on every stream with extreme words when the partner carries any weight 1..=1100 or one of 13 larger ones), all-zero => zero-weight error, two selections from one combination value are independent (product law); u32-boundary weight vectors must build iff the total fits. non-trivial = scenarios with more than one reachable member".into();
     run.bound("max_leaves", json!(if quick { 4 } else { 5 }));
     run.bound("max_weight", json!(wmax));
     run.bound("per_scenario_execution_budget", json!(budget.to_string()));
